@@ -195,3 +195,16 @@ _EXTRA4 = {
 }
 for _k, _v in _EXTRA4.items():
     PROPS[_k]['text'] = PROPS[_k]['text'].rstrip() + _v
+
+_EXTRA5 = {
+ 'C07': ' A branch that decides from the bitmap word whether the per-bit loop of init_from_image runs sits under a test of the run state (C07-R9).',
+ 'C11': ' The affine point helper (ignores vector[2] and matrix row 2) is called only under a guard on the vector\'s third component (C11-R10).',
+ 'C13': ' Coordinates taken from a vector/transform are widened before 64-bit arithmetic, never after 32-bit arithmetic (C13-R10, 72 sites).',
+ 'C14': ' Validate clears the dirty flag on every path once it found the image dirty (C14-R9).',
+ 'C15': ' A region operation never returns without having examined an input that could be the broken region (C15-R11, path-sensitive facts per input).',
+ 'C16': ' Validate clears dirty for every kind of image, hook or not, so later requests do not store into a shared source (C16-R5).',
+ 'C17': ' Arguments of the insertion call are stored into the entry without narrowing (C17-R6); the table-clearing role is recognised by its memset alone.',
+ 'C20': ' What a function allocates for itself is released on every path (C15-R3 wired in: stack-or-heap tests and their release tests must agree).',
+}
+for _k, _v in _EXTRA5.items():
+    PROPS[_k]['text'] = PROPS[_k]['text'].rstrip() + _v
